@@ -1,4 +1,4 @@
-import PyPhysim.Proofs.C14
+import PyPhysim.Proofs.C14Robust
 
 /-!
 # C14 — Jakes fading samples do not depend on how generation was chunked
@@ -277,6 +277,89 @@ example : jakes (5 : ℝ) [(0, 0), (1, 0)] 0 = .ok (Real.sqrt (1 / 2) * 2, 0) :=
   rw [jakes_ok _ _ _ (by simp)]
   simp [rayPhase]
   norm_num
+
+/-! ### robustness classes R15 (close but distinct values) and R16 (argument buffers) -/
+
+/-- R16 (argument identity and buffer reuse): a caller that keeps ONE size
+    buffer and ONE shape buffer, refills them in place and passes the same
+    objects to every call — the size buffer to `generate_more_samples` and to
+    `skip_samples_for_next_generation` alike — leaves the generator in the state
+    of the calls with FRESH arguments holding the buffer contents at call time
+    (rejected contents included: they raise and change nothing), and every
+    later request produces the same blocks.  The state has no component in which
+    an argument object could be remembered. -/
+theorem buffer_contents_at_call_time (c : Caller) (s : State) (prog : List CallerOp) (ops : List Op) :
+    (runC c s prog).2 = runR s (callsSeen c prog) ∧
+    (runC c s prog).2 = run s (accepted (callsSeen c prog)) ∧
+    trace (runC c s prog).2 ops = trace (run s (accepted (callsSeen c prog))) ops := by
+  rw [runC_state, runR_eq_run_accepted]; exact ⟨rfl, rfl, rfl⟩
+
+/-- non-vacuity / concrete instance: `nbuf[...] = 5; generate(nbuf); nbuf[...] = 7;
+    skip(nbuf); nbuf[...] = 99; sbuf[:] = (2, 3); shape = sbuf; sbuf[:] = (9,)`
+    is `generate(5); skip(7); shape = (2, 3)`. -/
+example : (runC { size := .default, shape := .none } (construct .none)
+      [.fillSize (.int 5), .genBuf, .fillSize (.int 7), .skipBuf, .fillSize (.int 99),
+       .fillShape (.seq [2, 3]), .setShapeBuf, .fillShape (.seq [9])]).2 =
+    run (construct .none) [.gen (some 5), .skip 7, .setShape (.tuple [2, 3])] := by decide
+
+/-- R16, continued: what the caller writes into its buffers AFTER a call (the
+    buffer is overwritten right after the call, or refilled for a call that is
+    never made) does not reach the generator, and a call passing the buffer is
+    the call passing an equal-content fresh object. -/
+theorem later_refills_invisible (c : Caller) (s : State) (prog : List CallerOp) (a : SizeArg) (b : RawShape) :
+    (runC c s (prog ++ [.fillSize a, .fillShape b])).2 = (runC c s prog).2 ∧
+    (stepC c s .genBuf).2 = (stepC c s (.call (.gen c.size))).2 ∧
+    (stepC c s .skipBuf).2 = (stepC c s (.call (.skip c.size))).2 ∧
+    (stepC c s .setShapeBuf).2 = (stepC c s (.call (.setShape c.shape))).2 := by
+  refine ⟨?_, rfl, rfl, rfl⟩
+  rw [runC_state, runC_state, callsSeen_append c s]
+  have : callsSeen (runC c s prog).1 [.fillSize a, .fillShape b] = [] := rfl
+  rw [this, List.append_nil]
+
+/-- R15 (distinct values that are merely close), general form: for a ray with
+    `cos(phi) ≠ 0` two (Doppler, time) pairs give DIFFERENT samples as soon as the
+    products `Fd·t` differ at all and by less than one cycle of that ray — so
+    there is no tolerance below which two Doppler frequencies, two sampling
+    intervals or two sample times are "the same": the model is a function of the
+    exact values. -/
+theorem close_values_distinct_samples (Fd Fd' Ts Ts' : ℝ) (k k' : Nat) (phi psi : ℝ)
+    (h0 : (Fd * ((k : ℝ) * Ts) - Fd' * ((k' : ℝ) * Ts')) * Real.cos phi ≠ 0)
+    (h1 : |(Fd * ((k : ℝ) * Ts) - Fd' * ((k' : ℝ) * Ts')) * Real.cos phi| < 1) :
+    processSample Fd Ts [(phi, psi)] k ≠ processSample Fd' Ts' [(phi, psi)] k' :=
+  single_ray_ne Fd Fd' _ _ phi psi h0 h1
+
+/-- non-vacuity: `Fd = 2.4e9 + 2e4` against `2.4e9` (relative difference 8e-6,
+    "equal" for `np.isclose`) at `Ts = 1e-9`, sample 10000: 0.2 cycles apart. -/
+example : processSample (2400020000 : ℝ) (1 / 1000000000) [(0, 0)] 10000 ≠
+    processSample (2400000000 : ℝ) (1 / 1000000000) [(0, 0)] 10000 := by
+  apply close_values_distinct_samples <;> norm_num [abs_lt]
+
+/-- R15, the zero test of the Doppler clause: only `Fd = 0` is time invariant.
+    However small `Fd ≠ 0` is (1e-9, 1e-15 — "zero" for an absolute threshold),
+    sample `k` differs from sample `0` once `Fd·cos(phi)·k·Ts` is a non-zero
+    fraction of a cycle. -/
+theorem tiny_doppler_not_time_invariant (Fd Ts : ℝ) (k : Nat) (phi psi : ℝ)
+    (h0 : Fd * ((k : ℝ) * Ts) * Real.cos phi ≠ 0) (h1 : |Fd * ((k : ℝ) * Ts) * Real.cos phi| < 1) :
+    processSample Fd Ts [(phi, psi)] k ≠ processSample Fd Ts [(phi, psi)] 0 := by
+  have h := single_ray_ne Fd Fd ((k : ℝ) * Ts) (((0 : Nat) : ℝ) * Ts) phi psi
+    (by simpa [sub_mul, mul_sub] using h0) (by simpa [sub_mul, mul_sub] using h1)
+  exact h
+
+/-- non-vacuity: `Fd = 1e-12` Hz, `Ts = 1` s, ten thousand million samples on:
+    a hundredth of a cycle. -/
+example : processSample (1 / 1000000000000 : ℝ) 1 [(0, 0)] 10000000000 ≠
+    processSample (1 / 1000000000000 : ℝ) 1 [(0, 0)] 0 := by
+  apply tiny_doppler_not_time_invariant <;> norm_num [abs_lt]
+
+/-- R15 for the phases: two starting phases `psi ≠ psi'` less than one turn
+    apart (1e-9 apart, adjacent doubles, …) give different samples at every
+    time. -/
+theorem close_phase_distinct_samples (Fd t phi psi psi' : ℝ) (h0 : psi ≠ psi')
+    (h1 : |psi - psi'| < 2 * Real.pi) :
+    jakes Fd [(phi, psi)] t ≠ jakes Fd [(phi, psi')] t := by
+  apply single_ray_ne_of_phase
+  · intro h; apply h0; simpa [rayPhase] using h
+  · simpa [rayPhase] using h1
 
 /-! ### the stepping used before the repair (fixed finding `C14:float-stepped-arange`) -/
 
